@@ -115,6 +115,16 @@ pub fn query_set(thorough: bool) -> Vec<Q> {
             }
         }
     }
+    // every leaf as a non-leading / leading / excluded member next to a plain clause (so that stateful scorers -
+    // phrases with slop, phrase prefixes, ranges, term sets, fuzzy, regex - are driven by seeks, not only advanced)
+    for q in &l {
+        for x in [t("a"), t("b"), Q::All] {
+            qs.push(Q::Bool(vec![(Occ::Must, q.clone()), (Occ::Must, x.clone())], None));
+            qs.push(Q::Bool(vec![(Occ::Must, x.clone()), (Occ::Must, q.clone())], None));
+            qs.push(Q::Bool(vec![(Occ::Must, x.clone()), (Occ::MustNot, q.clone())], None));
+            qs.push(Q::Bool(vec![(Occ::Must, x.clone()), (Occ::Should, q.clone())], None));
+        }
+    }
     // wrappers
     for q in &l {
         qs.push(Q::Boost(Box::new(q.clone()), 2.0));
